@@ -13,6 +13,10 @@ pub struct Call {
     pub header: Option<String>,
     /// handler duration in ms; None = never finishes
     pub handler_ms: Option<u32>,
+    /// executor stall: this many ms after the call starts the whole (virtual) clock jumps ahead
+    /// by the second value at once, so that tasks are next polled with several timers already due
+    #[serde(default)]
+    pub stall: Option<(u16, u16)>,
 }
 
 #[derive(Clone, Debug, Serialize, Deserialize, PartialEq, Eq, Hash)]
@@ -83,9 +87,36 @@ pub fn check(case: &Case, obs: &mut Obs) -> Result<(), Fail> {
                 req.headers_mut().insert("timeout".into(), h.clone());
             }
             let t0 = sim.fabric.now_us() * 1000;
+            let staller = c.stall.map(|(at, len)| tokio::spawn(async move {
+                sleep_ms(at as u64).await;
+                tokio::time::advance(std::time::Duration::from_millis(len as u64)).await;
+            }));
             let res = within(400_000, caller.net.rpc(callee.id(), req)).await;
             let t1 = sim.fabric.now_us() * 1000;
             let took = t1 - t0;
+            if let Some(h) = staller {
+                // with a stall only the direction "a handler needing less is answered normally" is decided
+                h.abort();
+                let stall_ns = c.stall.map_or(0, |(_, len)| len as u64 * MS);
+                let handler_ns = c.handler_ms.map(|v| v as u64 * MS);
+                let fits_server = match (handler_ns, pred.ds) { (Some(h), Some(ds)) => h + tol < ds, (Some(_), None) => true, (None, _) => false };
+                let fits_caller = match (handler_ns, pred.dc) { (Some(h), Some(dc)) => h + stall_ns + rtt + tol + 5 * MS < dc, (Some(_), None) => true, (None, _) => false };
+                match &res {
+                    Err(()) => vfail!("c11:no-deadline-applied", "call {i} ({c:?}) produced no result within 400 virtual seconds"),
+                    Ok(r) => {
+                        let ok = matches!(r, Ok(resp) if resp.status().to_u16() == 200);
+                        if fits_server && fits_caller {
+                            vensure!(ok, "c11:cut-off-although-handler-needed-less", "call {i} ({c:?}; out-default {:?} ms, in-default {:?} ms): the handler needs less than both deadlines (Ds={:?} Dc={:?} ns) and finished before them, yet the call ended with {} once the stalled executor resumed", out_default, in_default, pred.ds, pred.dc, match r { Ok(resp) => format!("status {}", resp.status().to_u16()), Err(e) => format!("error {e}") });
+                            nontrivial = true;
+                            obs.label("stalled:handler-done-and-deadline-due-at-the-same-poll");
+                        } else {
+                            obs.label("stalled:undecided");
+                        }
+                    }
+                }
+                sleep_ms(case.link_delay_ms as u64 * 2 + 5).await;
+                continue;
+            }
             let res = match res {
                 Ok(r) => r,
                 Err(()) => vfail!("c11:no-deadline-applied", "call {i} ({c:?}) produced no result within 400 virtual seconds; expected {:?} (Dc={:?} Ds={:?} ns)", pred.allowed, pred.dc, pred.ds),
@@ -186,7 +217,7 @@ impl Part for Calls {
     type Case = Case;
     fn name(&self) -> &'static str { "calls" }
     fn rule(&self) -> &'static str {
-        "two networks with generated outbound/inbound default timeouts (None, 1 ms..60 s) on both ends, link delay 1-20 ms, 1-6 RPCs each with a generated timeout header (absent, 0, ms values, sub-ms values, any u64, u64::MAX, overflowing, non-numeric, padded, empty, leading zeros) and handler duration 0..120 s or never; oracle = refmodel::deadline (min over optional values; expected outcome in {Success, RequestTimeout, caller timeout} and virtual completion time), handler dropped at arrival+Ds, never later than the local inbound default; cases within 2x link delay of a boundary accept either neighbour; non-trivial = a default and a (parsable) header both present and different, or an unparsable header with a default; distinct by case"
+        "two networks with generated outbound/inbound default timeouts (None, 1 ms..60 s) on both ends, link delay 1-20 ms, 1-6 RPCs each with a generated timeout header (absent, 0, ms values, sub-ms values, any u64, u64::MAX, overflowing, non-numeric, padded, empty, leading zeros) and handler duration 0..120 s or never, optionally an executor stall (the virtual clock jumps 0.1-3 s at once 0-300 ms into the call, so the handler's completion and a deadline can become due at the same poll; then only 'a handler needing less than both deadlines is answered normally' is decided); oracle = refmodel::deadline (min over optional values; expected outcome in {Success, RequestTimeout, caller timeout} and virtual completion time), handler dropped at arrival+Ds, never later than the local inbound default; cases within 2x link delay of a boundary accept either neighbour; non-trivial = a default and a (parsable) header both present and different, or an unparsable header with a default; distinct by case"
     }
     fn strategy(&self, _t: Tier) -> BoxedStrategy<Case> {
         let handler = prop_oneof![
@@ -195,7 +226,9 @@ impl Part for Calls {
             2 => (3_000u32..120_000).prop_map(Some),
             1 => Just(None),
         ];
-        let call = (any::<bool>(), header(), handler).prop_map(|(from_a, header, handler_ms)| Call { from_a, header, handler_ms });
+        // stalls: mostly "starts while the handler runs and ends after the deadline"
+        let stall = prop_oneof![5 => Just(None), 2 => (0u16..300, 100u16..3000).prop_map(Some)];
+        let call = (any::<bool>(), header(), handler, stall).prop_map(|(from_a, header, handler_ms, stall)| Call { from_a, header, handler_ms, stall });
         ((default_ms(), default_ms()), (default_ms(), default_ms()), 1u8..21, prop::collection::vec(call, 1..7))
             .prop_map(|(a, b, link_delay_ms, calls)| Case { a, b, link_delay_ms, calls })
             .boxed()
@@ -203,10 +236,91 @@ impl Part for Calls {
     fn run(&self, c: &Case, obs: &mut Obs) -> Result<(), Fail> { check(c, obs) }
 }
 
+// ---------------------------------------------------------------- calls queued behind the peer's stream limit
+
+#[derive(Clone, Debug, Serialize, Deserialize, PartialEq, Eq, Hash)]
+pub struct QueuedCase {
+    /// max_concurrent_bidi_streams granted by the callee
+    pub stream_limit: u8,
+    /// handler duration of each concurrent call (ms); all calls start together
+    pub handlers_ms: Vec<u32>,
+    pub out_default_ms: Option<u32>,
+    pub header_ms: Option<u32>,
+    pub link_delay_ms: u8,
+}
+
+pub struct Queued;
+impl Part for Queued {
+    type Case = QueuedCase;
+    fn name(&self) -> &'static str { "queued-calls" }
+    fn rule(&self) -> &'static str {
+        "callee grants 1-3 concurrent request streams; 2-8 RPCs with slow handlers (0.2-6 s) start together on one connection, so some wait for stream credit; the caller has an outbound default and/or the calls carry a timeout header (50 ms-3 s); oracle: the calling side's deadline Dc = min(default, header) covers the whole call: every call returns no later than Dc (+ timer granularity), calls whose handler needs more than Dc end with an error; non-trivial = more calls than streams and at least one call still queued at its deadline; distinct by case"
+    }
+    fn strategy(&self, _t: Tier) -> BoxedStrategy<QueuedCase> {
+        let ms = || prop_oneof![2 => 50u32..600, 1 => 600u32..3000];
+        (1u8..4, prop::collection::vec(200u32..6000, 2..9), prop::option::of(ms()), prop::option::of(ms()), 1u8..15)
+            .prop_filter_map("needs a caller-side deadline", |(stream_limit, handlers_ms, out_default_ms, header_ms, link_delay_ms)| {
+                (out_default_ms.is_some() || header_ms.is_some()).then_some(QueuedCase { stream_limit, handlers_ms, out_default_ms, header_ms, link_delay_ms })
+            })
+            .boxed()
+    }
+    fn run(&self, case: &QueuedCase, obs: &mut Obs) -> Result<(), Fail> {
+        let case = case.clone();
+        run_sim(3, case.link_delay_ms.max(1) as u64, |sim| async move {
+            let mut sa = NodeSpec::new(0);
+            sa.config.outbound_request_timeout_ms = case.out_default_ms.map(|v| v as u64);
+            let mut sb = NodeSpec::new(1);
+            sb.config.quic.as_mut().unwrap().max_concurrent_bidi_streams = Some(case.stream_limit as u64);
+            for s in [&mut sa, &mut sb] {
+                let q = s.config.quic.as_mut().unwrap();
+                q.max_idle_timeout_ms = Some(60_000);
+                q.keep_alive_interval_ms = Some(5_000);
+            }
+            let a = sim.node_with(sa)?;
+            let b = sim.node_with(sb)?;
+            match within(20_000, a.net.connect(b.addr())).await {
+                Ok(Ok(_)) => {}
+                _ => return Err(Fail::Inconclusive("connect failed".into())),
+            }
+            sleep_ms(4 * case.link_delay_ms as u64 + 10).await;
+            let dc_ms = match (case.out_default_ms, case.header_ms) { (Some(a), Some(b)) => a.min(b), (Some(a), None) | (None, Some(a)) => a, (None, None) => return Ok(()) } as u64;
+            let mut tasks = Vec::new();
+            for (i, h) in case.handlers_ms.iter().enumerate() {
+                let ctl = Ctl { id: i as u64, delay_ms: *h, status_idx: 0, resp_len: 10, resp_hdrs: 0, mode: 0 };
+                let mut req = ctl_request("/c11q", &[], &ctl, 64);
+                if let Some(h) = case.header_ms { req.headers_mut().insert("timeout".into(), (h as u64 * MS).to_string()); }
+                let (net, peer, fabric) = (a.net.clone(), b.id(), sim.fabric.clone());
+                tasks.push(tokio::spawn(async move {
+                    let t0 = fabric.now_us();
+                    let r = within(120_000, net.rpc(peer, req)).await;
+                    (r.map(|r| r.map(|resp| resp.status().to_u16()).map_err(|e| e.to_string())), fabric.now_us() - t0)
+                }));
+            }
+            let mut queued_at_deadline = 0;
+            for (i, t) in tasks.into_iter().enumerate() {
+                let (r, took_us) = t.await.map_err(|e| Fail::Inconclusive(format!("task: {e}")))?;
+                let r = match r { Ok(r) => r, Err(()) => vfail!("c11:no-deadline-applied", "queued call {i} of {:?} produced no result within 120 virtual seconds (calling-side deadline {dc_ms} ms)", case) };
+                vensure!(took_us <= dc_ms * 1000 + 2_000, "c11:caller-deadline-exceeded", "call {i} of {} started together (callee grants {} streams; handlers {:?} ms): result {:?} came back after {} us, the calling side's deadline is {} ms", case.handlers_ms.len(), case.stream_limit, case.handlers_ms, r, took_us, dc_ms);
+                if case.handlers_ms[i] as u64 > dc_ms + 2 {
+                    vensure!(!matches!(r, Ok(200)), "c11:outcome", "call {i}: handler needs {} ms, calling-side deadline {dc_ms} ms, yet the call succeeded", case.handlers_ms[i]);
+                }
+                if r.is_err() && b.rec.find(i as u64, Ev::Start).is_none() { queued_at_deadline += 1; }
+            }
+            sim.health()?;
+            check_no_panics("during queued calls")?;
+            obs.evals(case.handlers_ms.len() as u64);
+            if queued_at_deadline > 0 { obs.label("a-call-was-still-waiting-for-a-stream-at-its-deadline"); }
+            if case.handlers_ms.len() > case.stream_limit as usize && queued_at_deadline > 0 { obs.nontrivial(&case); }
+            Ok(())
+        })
+    }
+}
+
 pub fn run(tier: Tier) -> i32 {
     let mut ctx = Ctx::new("C11", tier);
     ctx.assume("virtual time: tokio's paused clock; timer granularity 1 ms is inside the tolerance band");
     ctx.assume("headers with a leading '+' are not generated (accepted by the std integer parser; the statement does not say whether they are numeric)");
     ctx.run_part(Calls, tier.pick(6_000, 150_000));
+    ctx.run_part(Queued, tier.pick(800, 20_000));
     ctx.finish()
 }
